@@ -114,7 +114,7 @@ fn type_args(p: &syn::Path) -> Vec<&Type> {
 
 const CELLS: &[&str] = &["MutRc", "MutArc", "Rc", "Arc", "RefCell", "Mutex", "Cell"];
 /// the traits whose impls are translated
-const TRAITS: &[&str] = &["Observer", "Subscription", "Publisher", "SubjectSize", "Observable"];
+const TRAITS: &[&str] = &["Observer", "Subscription", "Publisher", "SubjectSize", "Observable", "Behavior"];
 const PHANTOMS: &[&str] = &["TypeHint", "PhantomData"];
 
 impl Generics {
@@ -304,6 +304,8 @@ pub struct MethodInfo {
     pub needs_pub: bool,
     /// result type of a pure method
     pub ret: Ty,
+    /// a query that can panic: its Lean function returns `Option ret`
+    pub partial: bool,
 }
 
 pub struct StructInfo {
@@ -1260,6 +1262,19 @@ impl<'a> Fx<'a> {
             };
         }
         if let Expr::Path(p) = f {
+            // `Observer::next(&mut self.subject, value)`: a method call in function form
+            if p.path.segments.len() == 2 && TRAITS.contains(&p.path.segments[0].ident.to_string().as_str()) && !c.args.is_empty() {
+                let recv = &c.args[0];
+                let recv = match recv {
+                    Expr::Reference(r) => &*r.expr,
+                    other => other,
+                };
+                let name = &p.path.segments[1].ident;
+                let rest: Vec<&Expr> = c.args.iter().skip(1).collect();
+                let mc: syn::ExprMethodCall = syn::parse_quote!(#recv.#name(#(#rest),*));
+                let whole = Expr::MethodCall(mc.clone());
+                return self.method(&mc, &whole);
+            }
             if let Some(en) = self.enum_of_path(&p.path) {
                 let args = c.args.iter().map(|a| self.expr(a)).collect::<Res<Vec<_>>>()?;
                 return Ok(format!("({}.{} {})", en, last_seg(&p.path), args.join(" ")));
@@ -1341,6 +1356,10 @@ impl<'a> Fx<'a> {
             self.write_place(&pl, &format!("{}.1", t))?;
             self.emit(format!("out := out ++ {}.2", t));
             Ok("()".into())
+        } else if mi.partial {
+            let t = self.fresh("t");
+            self.emit(format!("let {} ← {}{}.{} {} {}", t, si.prefix, si.name, mname, cur, a.join(" ")));
+            Ok(t)
         } else {
             Ok(format!("({}{}.{} {} {})", si.prefix, si.name, mname, cur, a.join(" ")))
         }
@@ -2000,7 +2019,7 @@ pub fn translate_observer(items: &[Item], name: &str, ctx: &mut Ctx, hints: &Has
         }
         info.methods.insert(
             fname.clone(),
-            MethodInfo { effectful: !has_ret, params: params.clone(), needs_closed, needs_down, needs_pub: subscribe, ret: ret.clone() },
+            MethodInfo { effectful: !has_ret, params: params.clone(), needs_closed, needs_down, needs_pub: subscribe, ret: ret.clone(), partial: false },
         );
         sigs.push((fname, params, !has_ret));
     }
@@ -2031,6 +2050,7 @@ pub fn translate_observer(items: &[Item], name: &str, ctx: &mut Ctx, hints: &Has
         },
     );
     let mut errors = vec![];
+    let mut partials: Vec<String> = vec![];
     let mut order: Vec<usize> = (0..units.len()).collect();
     order.sort_by_key(|i| units[*i].im.trait_.is_some());
     let mut done: Vec<String> = vec![];
@@ -2104,6 +2124,7 @@ pub fn translate_observer(items: &[Item], name: &str, ctx: &mut Ctx, hints: &Has
                     }
                     match res {
                         Ok(v) => {
+                            partials.push(fname.clone());
                             writeln!(s, "def {}.{} (self_ : {}){}{} : Option {} := do", name, fname, state_ty, ps, down, mi.ret.lean()).unwrap();
                             for l in fx2.lines {
                                 writeln!(s, "{}", l).unwrap();
@@ -2113,6 +2134,13 @@ pub fn translate_observer(items: &[Item], name: &str, ctx: &mut Ctx, hints: &Has
                         Err(e2) => errors.push(format!("{}::{}: {} / {}", name, fname, e1, e2)),
                     }
                 }
+            }
+        }
+    }
+    if let Some(si) = ctx.structs.get_mut(name) {
+        for p in &partials {
+            if let Some(m) = si.methods.get_mut(p) {
+                m.partial = true;
             }
         }
     }
@@ -2705,6 +2733,8 @@ fn main() {
     let out = std::path::Path::new(&a[2]);
     std::fs::create_dir_all(out).unwrap();
     let mut failed = 0;
+    // structs of the modules translated so far (for `imports`)
+    let mut done: HashMap<String, Vec<StructInfo>> = HashMap::new();
     for ent in table::table() {
         if !ent.expanded_mod.is_empty() && a.get(3).is_none() {
             continue; // needs the compiler-expanded source: left as it is when none is given
@@ -2715,7 +2745,13 @@ fn main() {
         for i in ent.imports {
             writeln!(lean, "import RxModel.Gen.{}", i).unwrap();
         }
-        writeln!(lean, "namespace Rx.Gen.{}\nopen Rx\n", ent.module).unwrap();
+        writeln!(lean, "namespace Rx.Gen.{}\nopen Rx", ent.module).unwrap();
+        for i in ent.imports {
+            if *i != "RcObserver" {
+                writeln!(lean, "open Rx.Gen.{}", i).unwrap();
+            }
+        }
+        writeln!(lean).unwrap();
         // the items of the file (macro stamps expanded), plus those of the extra files
         let mut items: Vec<Item> = vec![];
         let mut parse_err = None;
@@ -2776,10 +2812,27 @@ fn main() {
                     ctx.aliases.insert(t.ident.to_string(), (ps, (*t.ty).clone()));
                 }
             }
-            // structs of imported modules (only the slot observer so far)
+            for imp in ent.imports {
+                if *imp == "RcObserver" {
+                    continue;
+                }
+                for si in done.get(*imp).map(|v| v.as_slice()).unwrap_or(&[]) {
+                    ctx.structs.insert(
+                        si.name.clone(),
+                        StructInfo {
+                            name: si.name.clone(),
+                            fields: si.fields.clone(),
+                            methods: si.methods.clone(),
+                            root_ty: si.root_ty.clone(),
+                            prefix: format!("Rx.Gen.{}.", imp),
+                        },
+                    );
+                }
+            }
+            // the slot observer
             if ent.imports.contains(&"RcObserver") {
                 let mut methods = HashMap::new();
-                let mi = |e: bool, ps: Vec<(String, Ty)>| MethodInfo { effectful: e, params: ps, needs_closed: false, needs_down: !e, needs_pub: false, ret: Ty::Bool };
+                let mi = |e: bool, ps: Vec<(String, Ty)>| MethodInfo { effectful: e, params: ps, needs_closed: false, needs_down: !e, needs_pub: false, ret: Ty::Bool, partial: false };
                 methods.insert("next".to_string(), mi(true, vec![("value".into(), Ty::Val)]));
                 methods.insert("error".to_string(), mi(true, vec![("err".into(), Ty::Err)]));
                 methods.insert("complete".to_string(), mi(true, vec![]));
@@ -2822,6 +2875,14 @@ fn main() {
                     }
                 }
             }
+            done.insert(
+                ent.module.to_string(),
+                ctx.structs
+                    .values()
+                    .filter(|si| si.prefix.is_empty())
+                    .map(|si| StructInfo { name: si.name.clone(), fields: si.fields.clone(), methods: si.methods.clone(), root_ty: si.root_ty.clone(), prefix: String::new() })
+                    .collect(),
+            );
             for op in ent.wirings {
                 match translate_wiring(&items, op, ent.observers) {
                     Ok(s) => lean += &s,
@@ -2845,6 +2906,7 @@ fn main() {
                 }
             }
         }
+        // (recorded below for later imports)
         writeln!(lean, "end Rx.Gen.{}", ent.module).unwrap();
         let p = out.join(format!("{}.lean", ent.module));
         let old = std::fs::read_to_string(&p).unwrap_or_default();
